@@ -235,8 +235,14 @@ func cmdCheck(args []string) int {
 		}
 		all = append(all, fe.obls...)
 	}
-	if exit != 0 {
-		return exit
+	// A contract that no longer binds (function, parameter or local renamed, signature changed)
+	// is a check error (exit 2), not a violation. The functions that do bind and the bounded
+	// stand-ins still run, so that a change which also breaks the property on a real input is
+	// reported as a violation with that input; without one the run ends with the check error.
+	bindErr := exit != 0
+	exit = 0
+	if bindErr {
+		*noEvidence = true
 	}
 	timeout, retryTimeout := 10, 30
 	if *tier == "thorough" {
@@ -468,6 +474,9 @@ func cmdCheck(args []string) int {
 		os.WriteFile(filepath.Join(*verif, "evidence", prop+".json"), data, 0o644)
 	}
 	fmt.Printf("%s: %d/%d claimed obligations discharged over %d functions (%d unclaimed undischarged, %d known findings), %.1fs\n", prop, discharged, claimed, len(fnNames), len(unclaimed), len(knownHits), wall)
+	if bindErr && exit == 0 {
+		exit = 2
+	}
 	return exit
 }
 
